@@ -9,9 +9,17 @@ package kv_test
 
 import (
 	"context"
+	"crypto/ecdsa"
+	"crypto/elliptic"
+	crand "crypto/rand"
+	"crypto/tls"
+	"crypto/x509"
+	"crypto/x509/pkix"
 	"encoding/json"
 	"fmt"
+	"math/big"
 	"math/bits"
+	"net"
 	"reflect"
 	"sort"
 	"strings"
@@ -76,16 +84,51 @@ type kvProfile struct {
 	name          string
 	typ           string
 	pass, cfgPass string
+	// tls: the shards speak TLS only (self-signed certificate) and the store's shard
+	// configuration says Tls: true; the single reference server stays a plain one
+	tls bool
 }
 
 const kvSecret = "c12-s3cret"
 
 var kvProfiles = []kvProfile{
-	{"node", redis.NodeType, "", ""},
-	{"node+pass", redis.NodeType, kvSecret, kvSecret},
-	{"cluster", redis.ClusterType, "", ""},
-	{"cluster+pass", redis.ClusterType, kvSecret, kvSecret},
-	{"mustfail:node-missing-pass", redis.NodeType, kvSecret, ""},
+	{"node", redis.NodeType, "", "", false},
+	{"node+pass", redis.NodeType, kvSecret, kvSecret, false},
+	{"cluster", redis.ClusterType, "", "", false},
+	{"cluster+pass", redis.ClusterType, kvSecret, kvSecret, false},
+	{"mustfail:node-missing-pass", redis.NodeType, kvSecret, "", false},
+	// round 8 (appended: the index is part of recorded cases)
+	{"node+tls+pass", redis.NodeType, kvSecret, kvSecret, true},
+}
+
+var (
+	kvCertOnce sync.Once
+	kvCert     tls.Certificate
+)
+
+// kvServerTLS: a self-signed certificate made once per process.
+func kvServerTLS(t *testing.T) *tls.Config {
+	kvCertOnce.Do(func() {
+		key, err := ecdsa.GenerateKey(elliptic.P256(), crand.Reader)
+		if err != nil {
+			t.Fatalf("tls key: %v", err)
+		}
+		tmpl := &x509.Certificate{
+			SerialNumber: big.NewInt(12),
+			Subject:      pkix.Name{CommonName: "c12kv"},
+			NotBefore:    time.Now().Add(-time.Hour),
+			NotAfter:     time.Now().Add(240 * time.Hour),
+			KeyUsage:     x509.KeyUsageDigitalSignature,
+			ExtKeyUsage:  []x509.ExtKeyUsage{x509.ExtKeyUsageServerAuth},
+			IPAddresses:  []net.IP{net.IPv4(127, 0, 0, 1)},
+		}
+		der, err := x509.CreateCertificate(crand.Reader, tmpl, tmpl, &key.PublicKey, key)
+		if err != nil {
+			t.Fatalf("tls cert: %v", err)
+		}
+		kvCert = tls.Certificate{Certificate: [][]byte{der}, PrivateKey: key}
+	})
+	return &tls.Config{Certificates: []tls.Certificate{kvCert}}
 }
 
 func (p kvProfile) mustFail() bool { return p.pass != p.cfgPass }
@@ -121,7 +164,7 @@ func kvUse(t *testing.T, p int) {
 
 func kvShardConf(i int) redis.Config {
 	p := kvProfiles[kvCur]
-	return redis.Config{Host: kvShards[i].Addr(), Type: p.typ, Pass: p.cfgPass}
+	return redis.Config{Host: kvShards[i].Addr(), Type: p.typ, Pass: p.cfgPass, Tls: p.tls}
 }
 
 // kvRenew puts fresh servers (new addresses) behind the current profile.
@@ -138,7 +181,12 @@ func kvRenew(t *testing.T) {
 		kvRef.Close()
 	}
 	for i := range kvShards {
-		if kvShards[i], err = miniredis.Run(); err != nil {
+		if p.tls {
+			kvShards[i], err = miniredis.RunTLS(kvServerTLS(t))
+		} else {
+			kvShards[i], err = miniredis.Run()
+		}
+		if err != nil {
 			t.Fatalf("miniredis shard: %v", err)
 		}
 		if p.pass != "" {
@@ -151,7 +199,11 @@ func kvRenew(t *testing.T) {
 		// will report it; if raw go-redis cannot either, the run is inconclusive.
 		for n := 0; !kvShardConf(i).NewRedis().Ping() && !p.mustFail(); n++ {
 			if n > 20 {
-				probe := red.NewClient(&red.Options{Addr: kvShards[i].Addr(), Password: p.pass})
+				opt := &red.Options{Addr: kvShards[i].Addr(), Password: p.pass}
+				if p.tls {
+					opt.TLSConfig = &tls.Config{InsecureSkipVerify: true}
+				}
+				probe := red.NewClient(opt)
 				perr := probe.Ping(context.Background()).Err()
 				probe.Close()
 				if perr != nil {
@@ -799,7 +851,8 @@ func kvGen(rt *rapid.T) kvCase {
 	var c kvCase
 	// shard configuration: 12/20 node, 4/20 node+pass, 1/20 cluster, 2/20 cluster+pass
 	// (a call through go-redis' ClusterClient costs about 10 node calls), 1/20 must-fail
-	c.P = []int{0, 0, 0, 0, 0, 0, 0, 0, 0, 0, 0, 0, 1, 1, 1, 1, 2, 3, 3, 4}[g.uni(20)]
+	// round 8: 2/22 TLS-only shards (node type, with password)
+	c.P = []int{0, 0, 0, 0, 0, 0, 0, 0, 0, 0, 0, 0, 1, 1, 1, 1, 2, 3, 3, 4, 5, 5}[g.uni(22)]
 	ns := 1 + g.uni(kvMaxShards)
 	ws := []int{1, 10, 50, 100, 100, 150, 0}
 	positive := false
